@@ -296,7 +296,11 @@ func reportDisagreements(spec *propSpec, dis []*disagreement, replayDir string) 
 		shrinkDisagreement(spec, d)
 		path := filepath.Join(replayDir, fmt.Sprintf("%s-%s-%d.json", spec.id, d.Kind, n))
 		d.Replay = fmt.Sprintf("./check %s --replay %s", spec.id, path)
-		b, _ := json.MarshalIndent(d, "", " ")
+		b, merr := json.MarshalIndent(d, "", " ")
+		if merr != nil {
+			// a detail that does not marshal (an embedded raw message that is not JSON): keep its text
+			b, _ = json.MarshalIndent(map[string]any{"marshal_error": merr.Error(), "detail": fmt.Sprintf("%+v", d)}, "", " ")
+		}
 		os.WriteFile(path, b, 0o644)
 		fmt.Printf("VIOLATION property=%s replay=%s\n", spec.id, path)
 		fmt.Printf("  %s: %s\n  go=%s\n  model=%s\n", d.Kind, d.Message, canon(d.GoProj), canon(d.ModProj))
@@ -322,7 +326,11 @@ func reportUnitDisagreements(pid string, dis []map[string]any, replayDir string)
 		seen[key] = true
 		path := filepath.Join(replayDir, fmt.Sprintf("%s-%s-%s-%d.json", pid, d["kind"], d["stream"], n))
 		d["replay_cmd"] = fmt.Sprintf("./check %s --replay %s", pid, path)
-		b, _ := json.MarshalIndent(d, "", " ")
+		b, merr := json.MarshalIndent(d, "", " ")
+		if merr != nil {
+			// a detail that does not marshal (an embedded raw message that is not JSON): keep its text
+			b, _ = json.MarshalIndent(map[string]any{"marshal_error": merr.Error(), "detail": fmt.Sprintf("%+v", d)}, "", " ")
+		}
 		os.WriteFile(path, b, 0o644)
 		fmt.Printf("VIOLATION property=%s replay=%s\n  %s (%s): %s\n", pid, path, d["kind"], d["stream"], d["message"])
 		if g, ok := d["go"]; ok {
